@@ -342,11 +342,13 @@ func Open(opt Options) (*DB, error) {
 		}
 	}
 
+	y.VerifPoint("open.memtables")
 	// newLevelsController potentially loads files in directory.
 	if db.lc, err = newLevelsController(db, &manifest); err != nil {
 		return db, err
 	}
 
+	y.VerifPoint("open.levels")
 	// Initialize vlog struct.
 	db.vlog.init(db)
 
@@ -371,6 +373,7 @@ func Open(opt Options) (*DB, error) {
 		return db, y.Wrapf(err, "During db.vlog.open")
 	}
 
+	y.VerifPoint("open.vlog")
 	// Let's advance nextTxnTs to one more than whatever we observed via
 	// replaying the logs.
 	db.orc.txnMark.Done(db.orc.nextTxnTs)
@@ -543,6 +546,7 @@ func (db *DB) close() (err error) {
 	defer db.allocPool.Release()
 
 	db.opt.Debugf("Closing database")
+	y.VerifPoint("close.begin")
 	db.opt.Infof("Lifetime L0 stalled for: %s\n", time.Duration(db.lc.l0stallsMs.Load()))
 
 	db.blockWrites.Store(1)
@@ -556,6 +560,7 @@ func (db *DB) close() (err error) {
 	// Stop writes next.
 	db.closers.writes.SignalAndWait()
 
+	y.VerifPoint("close.writes.stopped")
 	// Don't accept any more write.
 	close(db.writeCh)
 
@@ -599,9 +604,11 @@ func (db *DB) close() (err error) {
 			}
 		}
 	}
+	y.VerifPoint("close.mt.pushed")
 	db.stopMemoryFlush()
 	db.stopCompactions()
 
+	y.VerifPoint("close.flushed")
 	// Force Compact L0
 	// We don't need to care about cstatus since no parallel compaction is running.
 	if db.opt.CompactL0OnClose {
@@ -617,11 +624,13 @@ func (db *DB) close() (err error) {
 		}
 	}
 
+	y.VerifPoint("close.compacted")
 	// Now close the value log.
 	if vlogErr := db.vlog.Close(); vlogErr != nil {
 		err = y.Wrap(vlogErr, "DB.Close")
 	}
 
+	y.VerifPoint("close.vlog.closed")
 	db.opt.Infof(db.LevelsToString())
 	if lcErr := db.lc.close(); err == nil {
 		err = y.Wrap(lcErr, "DB.Close")
@@ -655,6 +664,7 @@ func (db *DB) close() (err error) {
 		err = y.Wrap(registryErr, "DB.Close")
 	}
 
+	y.VerifPoint("close.files.closed")
 	// Fsync directories to ensure that lock file, and any other removed files whose directory
 	// we haven't specifically fsynced, are guaranteed to have their directory entry removal
 	// persisted to disk.
@@ -832,7 +842,9 @@ func (db *DB) writeToLSM(b *request) error {
 		if err != nil {
 			return y.Wrapf(err, "while writing to memTable")
 		}
+		y.VerifPoint("write.lsm.entry")
 	}
+	y.VerifPoint("write.lsm.presync")
 	if db.opt.SyncWrites {
 		return db.mt.SyncWAL()
 	}
@@ -852,6 +864,7 @@ func (db *DB) writeRequests(reqs []*request) error {
 		}
 	}
 	db.opt.Debugf("writeRequests called. Writing to value log")
+	y.VerifPoint("write.vlog.pre")
 	err := db.vlog.write(reqs)
 	if err != nil {
 		done(err)
@@ -859,6 +872,7 @@ func (db *DB) writeRequests(reqs []*request) error {
 	}
 
 	db.opt.Debugf("Writing to memtable")
+	y.VerifPoint("write.vlog.post")
 	var count int
 	for _, b := range reqs {
 		if len(b.Entries) == 0 {
@@ -885,11 +899,14 @@ func (db *DB) writeRequests(reqs []*request) error {
 			done(err)
 			return y.Wrap(err, "writeRequests")
 		}
+		y.VerifPoint("write.lsm.req")
 	}
 
+	y.VerifPoint("write.lsm.done")
 	db.opt.Debugf("Sending updates to subscribers")
 	db.pub.sendUpdates(reqs)
 
+	y.VerifPoint("write.ack.pre")
 	done(nil)
 	db.opt.Debugf("%d entries written", count)
 	return nil
@@ -1036,12 +1053,14 @@ func (db *DB) ensureRoomForWrite() error {
 	case db.flushChan <- db.mt:
 		db.opt.Debugf("Flushing memtable, mt.size=%d size of flushChan: %d\n",
 			db.mt.sl.MemSize(), len(db.flushChan))
+		y.VerifPoint("mt.rotate.pushed")
 		// We manage to push this task. Let's modify imm.
 		db.imm = append(db.imm, db.mt)
 		db.mt, err = db.newMemTable()
 		if err != nil {
 			return y.Wrapf(err, "cannot create new mem table")
 		}
+		y.VerifPoint("mt.rotate.done")
 		// New memtable is empty. We certainly have room.
 		return nil
 	default:
@@ -1101,9 +1120,11 @@ func (db *DB) handleMemTableFlush(mt *memTable, dropPrefixes [][]byte) error {
 	if err != nil {
 		return y.Wrap(err, "error while creating table")
 	}
+	y.VerifPoint("flush.built")
 	// We own a ref on tbl.
 	err = db.lc.addLevel0Table(tbl) // This will incrRef
 	_ = tbl.DecrRef()               // Releases our ref.
+	y.VerifPoint("flush.added")
 	return err
 }
 
@@ -1135,6 +1156,7 @@ func (db *DB) flushMemtable(lc *z.Closer) {
 			y.AssertTrue(mt == db.imm[0])
 			db.imm = db.imm[1:]
 			mt.DecrRef() // Return memory.
+			y.VerifPoint("flush.popped")
 			// unlock
 			db.lock.Unlock()
 			break
@@ -1723,6 +1745,7 @@ func (db *DB) dropAll() (func(), error) {
 	if err != nil {
 		return f, err
 	}
+	y.VerifPoint("dropall.blocked")
 	// prepareToDrop will stop all the incoming write and flushes any pending memtables.
 	// Before we drop, we'll stop the compaction because anyways all the data are going to
 	// be deleted.
@@ -1735,6 +1758,7 @@ func (db *DB) dropAll() (func(), error) {
 	db.lock.Lock()
 	defer db.lock.Unlock()
 
+	y.VerifPoint("dropall.locked")
 	// Remove inmemory tables. Calling DecrRef for safety. Not sure if they're absolutely needed.
 	db.mt.DecrRef()
 	for _, mt := range db.imm {
@@ -1746,16 +1770,19 @@ func (db *DB) dropAll() (func(), error) {
 		return resume, y.Wrapf(err, "cannot open new memtable")
 	}
 
+	y.VerifPoint("dropall.memtables")
 	num, err := db.lc.dropTree()
 	if err != nil {
 		return resume, err
 	}
 	db.opt.Infof("Deleted %d SSTables. Now deleting value logs...\n", num)
+	y.VerifPoint("dropall.tree")
 
 	num, err = db.vlog.dropAll()
 	if err != nil {
 		return resume, err
 	}
+	y.VerifPoint("dropall.vlog")
 	db.lc.nextFileID.Store(1)
 	db.opt.Infof("Deleted %d value log files. DropAll done.\n", num)
 	db.blockCache.Clear()
@@ -1786,6 +1813,7 @@ func (db *DB) DropPrefix(prefixes ...[]byte) error {
 	}
 	defer f()
 
+	y.VerifPoint("dropprefix.blocked")
 	var filtered [][]byte
 	if filtered, err = db.filterPrefixesToDrop(prefixes); err != nil {
 		return err
@@ -1812,6 +1840,7 @@ func (db *DB) DropPrefix(prefixes ...[]byte) error {
 		}
 		memtable.DecrRef()
 	}
+	y.VerifPoint("dropprefix.flushed")
 	db.stopCompactions()
 	defer db.startCompactions()
 	db.imm = db.imm[:0]
@@ -1820,10 +1849,12 @@ func (db *DB) DropPrefix(prefixes ...[]byte) error {
 		return y.Wrapf(err, "cannot create new mem table")
 	}
 
+	y.VerifPoint("dropprefix.newmt")
 	// Drop prefixes from the levels.
 	if err := db.lc.dropPrefixes(filtered); err != nil {
 		return err
 	}
+	y.VerifPoint("dropprefix.levels")
 	db.opt.Infof("DropPrefix done")
 	return nil
 }
